@@ -4,7 +4,7 @@ import ast
 
 from ..program import AnalysisError, walk_local, dotted
 from ..analysis import Spec, src, const_value
-from ..rules import (flow_canon, canon, string_template, substitute_locals, inside, before, GWF, EXC, mpt, need_func, stores_to, raise_class,
+from ..rules import (first_rest, flow_canon, canon, string_template, substitute_locals, inside, before, GWF, EXC, mpt, need_func, stores_to, raise_class,
                      parent_map, kw, is_const, strip_wrappers, eval_atom,
                      UNKNOWN)
 from . import common
@@ -36,15 +36,9 @@ ROBOT_PREFIXES = ('w/', 'q/', 'tmp/')
 def _unpack_first(f, name):
     """If `name` is the first element of `name, *rest = LIST`, return
     (rest name, LIST expr)."""
-    for st in walk_local(f.node, include_root=False):
-        if isinstance(st, ast.Assign) and \
-                isinstance(st.targets[0], ast.Tuple) and \
-                len(st.targets[0].elts) == 2 and \
-                isinstance(st.targets[0].elts[0], ast.Name) and \
-                st.targets[0].elts[0].id == name and \
-                isinstance(st.targets[0].elts[1], ast.Starred) and \
-                isinstance(st.targets[0].elts[1].value, ast.Name):
-            return st.targets[0].elts[1].value.id, st.value
+    for first, rest, lst in first_rest(f):
+        if first == name and rest is not None:
+            return rest, lst
     return None
 
 
@@ -262,16 +256,10 @@ def direct_merge_shape(prog, an, rep):
                       'branches one by one: %s' % src(loop.target))
         return
     # what the loop ranges over: the rest of wbranches
-    unpack = [st for st in walk_local(f.node, include_root=False)
-              if isinstance(st, ast.Assign) and
-              isinstance(st.targets[0], ast.Tuple) and
-              src(st.value) == f.params[1]]
     first = rest = None
-    for st in unpack:
-        elts = st.targets[0].elts
-        if len(elts) == 2 and isinstance(elts[0], ast.Name) and \
-                isinstance(elts[1], ast.Starred):
-            first, rest = elts[0].id, elts[1].value.id
+    for a, r, lst in first_rest(f):
+        if src(lst) == f.params[1] and r is not None:
+            first, rest = a, r
     ok_iter = first is not None and src(loop.iter) == rest
     if paired is not None and first is not None:
         # every branch paired with its predecessor: [first] + rest, rest
@@ -389,17 +377,11 @@ def queue_merge_shape(prog, an, rep):
     # over what is left after the first pair (the names may be shadowed or
     # not); QL = [get_queue_branch(job, w.dst_branch) for w in WL]
     first_q = first_w = qfull = wfull = None
-    for st in walk_local(f.node, include_root=False):
-        if isinstance(st, ast.Assign) and \
-                isinstance(st.targets[0], ast.Tuple) and \
-                len(st.targets[0].elts) == 2 and \
-                isinstance(st.targets[0].elts[1], ast.Starred) and \
-                isinstance(st.targets[0].elts[0], ast.Name):
-            rest = src(st.targets[0].elts[1].value)
-            if rest == qrest:
-                first_q, qfull = st.targets[0].elts[0].id, st.value
-            elif rest == wrest:
-                first_w, wfull = st.targets[0].elts[0].id, st.value
+    for a, rest, lst in first_rest(f):
+        if rest == qrest:
+            first_q, qfull = a, lst
+        elif rest == wrest:
+            first_w, wfull = a, lst
     rep.evaluated()
     ok = qfull is not None and _queue_list(an, f, qfull) and \
         wfull is not None and src(wfull) == f.params[1]
